@@ -33,7 +33,7 @@ ASSUMPTIONS = [
     "stores stay far below max_limit so no limit truncates; neighbours use regular kinds only so they supersede nothing",
 ]
 MIN_NONTRIVIAL = {"quick": 400, "thorough": 4000}
-REQUIRED_COUNTERS = ["pairs.add", "pairs.remove", "pairs.and", "pairs.window", "pairs.union"]
+REQUIRED_COUNTERS = ["pairs.add", "pairs.remove", "pairs.and", "pairs.window", "pairs.union", "pairs.add-under-low-max_limit"]
 SHARD_TIMEOUT = {"quick": 500, "thorough": 3000}
 REGULAR_OK = lambda k: (0 <= k < 2 ** 32) and k not in (0, 3, 5) and not (10000 <= k < 40000)  # noqa: E731
 
@@ -41,7 +41,8 @@ REGULAR_OK = lambda k: (0 <= k < 2 ** 32) and k not in (0, 3, 5) and not (10000 
 def plan(tier, seed):
     n, stores, bases = (6, 2, 45) if tier == "quick" else (24, 5, 120)
     return [{"backend": b, "case_seed": seed * 100003 + i * 7919, "stores": stores, "bases": bases}
-            for b in ("sql", "lmdb") for i in range(n)]
+            for b in ("sql", "lmdb") for i in range(n)] + \
+           [{"backend": b, "mode": "lowcap", "case_seed": seed * 7919, "n": 2 if tier == "quick" else 8} for b in ("sql", "lmdb")]
 
 
 def neighbours(u, f, answer_events):
@@ -338,6 +339,62 @@ async def run_store(backend, store_seed, nbases, counters, coverage, explicit=No
     return viols, nontrivial, samples
 
 
+async def run_lowcap(backend, counters, seed):
+    """a relay configured with a small max_limit (40): many neighbours that share a requested tag value / author /
+    kind but fail another condition of the filter must not push matching events out of the answer"""
+    import random
+
+    r = random.Random(seed)
+    rig = R.Rig(backend=backend, config={"analysis_delay": 0, "max_limit": 40})
+    await rig.start()
+    viols, nontrivial = [], []
+    pairs = counters.setdefault("pairs", {})
+    try:
+        conn = rig.connect()
+        for case in range(6):
+            keys = [ref.key_from_seed("c11-low-%d-%d-%d" % (seed, case, i)) for i in range(3)]  # nothing is shared between cases
+            name, val = r.choice(["t", "e", "p"]), "topic-%d-%d" % (seed, case)
+            kind_m, kind_n = r.choice([(1, 7), (7, 1), (1, 40000)])
+            shape = r.choice(["kinds+tag", "authors+tag", "kinds+authors", "tag+tag"])
+            nmatch = r.randint(2, 8)
+            match = [ref.make_event(keys[0], kind=kind_m, created_at=gen.T0 + 10 * i, tags=[[name, val], ["g", "keep"]], content="m %d %d %d" % (seed, case, i)) for i in range(nmatch)]
+            if shape == "kinds+tag":
+                f = {"kinds": [kind_m], "#" + name: [val]}
+                neigh = lambda i: ref.make_event(keys[i % 3], kind=kind_n, created_at=gen.T0 + 5 + i, tags=[[name, val]], content="n %d %d %d" % (seed, case, i))  # noqa: E731
+            elif shape == "authors+tag":
+                f = {"authors": [keys[0].pk], "#" + name: [val]}
+                neigh = lambda i: ref.make_event(keys[1 + i % 2], kind=kind_m, created_at=gen.T0 + 5 + i, tags=[[name, val]], content="n %d %d %d" % (seed, case, i))  # noqa: E731
+            elif shape == "kinds+authors":
+                f = {"kinds": [kind_m], "authors": [keys[0].pk]}
+                neigh = lambda i: ref.make_event(keys[0], kind=kind_n, created_at=gen.T0 + 5 + i, tags=[[name, val]], content="n %d %d %d" % (seed, case, i))  # noqa: E731
+            else:
+                f = {"#" + name: [val], "#g": ["keep"]}
+                neigh = lambda i: ref.make_event(keys[i % 3], kind=kind_m, created_at=gen.T0 + 5 + i, tags=[[name, val], ["g", "other"]], content="n %d %d %d" % (seed, case, i))  # noqa: E731
+            neighbours = [neigh(i) for i in range(r.choice([45, 60, 90]))]
+            neighbours = [e for e in neighbours if ref.match3(e, f) == ref.NO]
+            if case % 2 == 0:
+                await qcore.load_store(rig, conn, match)
+                a0 = await ask(rig, conn, f, counters)
+                await qcore.load_store(rig, conn, neighbours)
+            else:
+                # the neighbours were there first: the answer is what a store holding only the matching events gives
+                await qcore.load_store(rig, conn, neighbours)
+                await qcore.load_store(rig, conn, match)
+                a0 = {e["id"] for e in match} if all(ref.match3(e, f) == ref.MUST for e in match) else None
+            a1 = await ask(rig, conn, f, counters)
+            pairs["add-under-low-max_limit"] = pairs.get("add-under-low-max_limit", 0) + 1
+            if a0 is not None and a0 == {e["id"] for e in match}:
+                nontrivial.append(h([backend, "lowcap", seed, case, shape]))
+            if a0 is not None and a1 is not None and a1 != a0:
+                viols.append({"key": "%s/unrelated-add/%s/max_limit-40/%s" % (backend, "lost" if a0 - a1 else "gained", shape),
+                              "msg": "[max_limit 40] after adding %d non-matching neighbours Q(%s) went from %d to %d events (the filter has %d matches, far below the limit)"
+                                     % (len(neighbours), json.dumps(f)[:200], len(a0), len(a1), nmatch),
+                              "replay": {"backend": backend, "mode": "lowcap", "seed": seed}})
+    finally:
+        await rig.close()
+    return viols, nontrivial
+
+
 def _dedup(viols, cap=2):
     seen, out = {}, []
     for v in viols:
@@ -351,6 +408,16 @@ def _dedup(viols, cap=2):
 def run_shard(spec):
     counters, coverage = {}, {"backends": {spec["backend"]: 1}}
     viols, nontrivial, samples = [], [], []
+    if spec.get("mode") == "lowcap":
+        # own process: the relay captures max_limit when its storage module is first imported
+        for j in range(spec["n"]):
+            v, nt = R.run(run_lowcap, spec["backend"], counters, spec["case_seed"] + j)
+            viols.extend(v)
+            nontrivial.extend(nt)
+        viols, seen = _dedup(viols)
+        counters["violations_by_key"] = seen
+        return {"evaluations": sum(counters.get("pairs", {}).values()), "nontrivial": sorted(set(nontrivial)), "counters": counters, "coverage": coverage,
+                "violations": viols, "samples": [], "inconclusive": []}
     for s in range(spec["stores"]):
         v, nt, sm = R.run(run_store, spec["backend"], spec["case_seed"] * 31 + s, spec["bases"], counters, coverage)
         viols.extend(v)
@@ -365,6 +432,9 @@ def run_shard(spec):
 def replay(rp, spec):
     """replays the recorded event log up to the base query, then the full relation set"""
     counters, coverage = {}, {}
+    if rp.get("mode") == "lowcap":
+        v, nt = R.run(run_lowcap, rp["backend"], counters, rp["seed"])
+        return {"evaluations": 1, "nontrivial": nt, "counters": counters, "coverage": coverage, "violations": v, "samples": [], "inconclusive": []}
     v, nt, sm = R.run(run_store, rp["backend"], 12345, 1, counters, coverage, rp)
     v, seen = _dedup(v, cap=50)
     return {"evaluations": 1, "nontrivial": nt, "counters": counters, "coverage": coverage, "violations": v,
